@@ -5,7 +5,7 @@ from __future__ import annotations
 import ast
 
 from ..core.cfg import CFG
-from ..core.repo import (AnalysisError, Repo, call_name, calls_in, definitions, dotted, is_const,
+from ..core.repo import (AnalysisError, Repo, call_name, calls_in, definitions, dotted, func_params, is_const,
                          kwarg, names_in, unparse, walk_no_nested_defs)
 from ..domains.algnf import NotArithmetic, Rat, from_ast
 
@@ -182,30 +182,87 @@ def run(check, repo: Repo) -> None:
 
     def edge_calls(body):
         return [c for s in body for c in ast.walk(s) if isinstance(c, ast.Call) and call_name(c) == "add_edges"]
+
+    def ek(e, depth=0):
+        """abstract value of an end-point expression: ('grid',) the (H, W) id grid | ('roll', axis, shift) | ('slice', axis, 'lo'|'hi') |
+        ('flat', inner) | ('helical', text) for a roll / modular shift of the FLATTENED ids | None"""
+        if depth > 6:
+            return None
+        if isinstance(e, ast.Name):
+            dd = [d for d in definitions(be, e.id) if isinstance(d, ast.AST)]
+            if len(dd) != 1:
+                return None
+            d = dd[0]
+            if isinstance(d, ast.Call) and isinstance(d.func, ast.Attribute) and d.func.attr in ("reshape", "view") and len(d.args) == 2 \
+                    and isinstance(d.func.value, ast.Call) and (call_name(d.func.value) or "").endswith("arange"):
+                return ("grid",)
+            return ek(d, depth + 1)
+        if isinstance(e, ast.Call) and isinstance(e.func, ast.Attribute) and e.func.attr in ("flatten", "ravel") and not e.args:
+            inner = ek(e.func.value, depth + 1)
+            return ("flat", inner) if inner is not None else None
+        if isinstance(e, ast.Call) and isinstance(e.func, ast.Attribute) and e.func.attr in ("reshape", "view") and len(e.args) == 1 and unparse(e.args[0]) in ("-1", "(-1,)"):
+            inner = ek(e.func.value, depth + 1)
+            return ("flat", inner) if inner is not None else None
+        if isinstance(e, ast.Call) and (call_name(e) or "") in ("torch.roll", "np.roll") and len(e.args) >= 2:
+            inner = ek(e.args[0], depth + 1)
+            dims = kwarg(e, "dims") or kwarg(e, "axis") or (e.args[2] if len(e.args) > 2 else None)
+            if inner is not None and inner[0] == "flat":
+                return ("helical", unparse(e)[:60])
+            if inner == ("grid",) and dims is not None:
+                try:
+                    return ("roll", int(ast.literal_eval(dims)) % 2, int(ast.literal_eval(e.args[1])))
+                except Exception:
+                    return None
+            if inner == ("grid",) and dims is None:
+                return ("helical", unparse(e)[:60])  # roll without dims flattens first
+            return None
+        if isinstance(e, ast.BinOp) and isinstance(e.op, ast.Mod):
+            inner = ek(e.left.left, depth + 1) if isinstance(e.left, ast.BinOp) else None
+            if inner is not None and inner[0] == "flat":
+                return ("helical", unparse(e)[:60])
+            return None
+        if isinstance(e, ast.Subscript) and isinstance(e.slice, ast.Tuple) and len(e.slice.elts) == 2 and ek(e.value, depth + 1) == ("grid",):
+            kinds = []
+            for x in e.slice.elts:
+                if not isinstance(x, ast.Slice) or x.step is not None:
+                    return None
+                lo, hi = (unparse(x.lower) if x.lower is not None else None), (unparse(x.upper) if x.upper is not None else None)
+                kinds.append({(None, None): "all", (None, "-1"): "lo", ("1", None): "hi"}.get((lo, hi)))
+            if None in kinds or kinds.count("all") != 1:
+                return None
+            ax = 0 if kinds[0] != "all" else 1
+            return ("slice", ax, kinds[ax])
+        return None
     for label, body in (("periodic", wa.body), ("bounded", wa.orelse)):
         ec = edge_calls(body)
         dirs = set()
         bad = []
         for c in ec:
-            a, b = unparse(c.args[0]), unparse(c.args[1])
-            if label == "periodic":
-                if a == "idx.flatten()" and b in ("torch.roll(idx, -1, 1).flatten()", "torch.roll(idx, -1, dims=1).flatten()"):
-                    dirs.add("horizontal")
-                elif a == "idx.flatten()" and b in ("torch.roll(idx, -1, 0).flatten()", "torch.roll(idx, -1, dims=0).flatten()"):
-                    dirs.add("vertical")
-                elif "%" in b or "%" in a:
-                    bad.append(f"({a}, {b}): flat-index arithmetic modulo N crosses row boundaries — the horizontal seam edge joins (r, W−1) to (r+1, 0)")
-                else:
-                    raise AnalysisError(f"_build_edges[periodic]: edge pair ({a}, {b}) not recognised")
+            ka, kb = ek(c.args[0]), ek(c.args[1])
+            txt = f"({unparse(c.args[0])[:40]}, {unparse(c.args[1])[:40]})"
+            hel = [k for k in (ka, kb) if k is not None and (k[0] == "helical" or (k[0] == "flat" and k[1] is not None and k[1][0] == "helical"))]
+            if hel:
+                bad.append(f"{txt}: shifting the FLATTENED ids crosses row boundaries — the horizontal seam edge joins (r, W−1) to (r+1, 0) instead of (r, 0)")
+                continue
+            if ka is None or kb is None or ka[0] != "flat" or kb[0] != "flat":
+                raise AnalysisError(f"_build_edges[{label}]: edge pair {txt} not recognised")
+            ia, ib = ka[1], kb[1]
+            if label == "periodic" and {ia[0], ib[0]} == {"grid", "roll"}:
+                r = ia if ia[0] == "roll" else ib
+                if abs(r[2]) != 1:
+                    bad.append(f"{txt}: neighbours {abs(r[2])} pixels apart")
+                    continue
+                dirs.add("horizontal" if r[1] == 1 else "vertical")
+            elif label == "bounded" and ia[0] == ib[0] == "slice" and ia[1] == ib[1] and {ia[2], ib[2]} == {"lo", "hi"}:
+                dirs.add("horizontal" if ia[1] == 1 else "vertical")
+            elif label == "bounded" and {ia[0], ib[0]} == {"grid", "roll"}:
+                bad.append(f"{txt}: a roll wraps around — seam edges on a bounded grid")
+            elif label == "periodic" and ia[0] == ib[0] == "slice":
+                dirs.add(("horizontal" if ia[1] == 1 else "vertical") + " (interior only)")
             else:
-                if (a, b) == ("idx[:, :-1].flatten()", "idx[:, 1:].flatten()"):
-                    dirs.add("horizontal")
-                elif (a, b) == ("idx[:-1, :].flatten()", "idx[1:, :].flatten()"):
-                    dirs.add("vertical")
-                else:
-                    raise AnalysisError(f"_build_edges[bounded]: edge pair ({a}, {b}) not recognised")
-        for b in bad:
-            check.violated("C17-R4", f"_build_edges[{label}]: neighbour pairs stay within their row/column", b, mod.line(wa))
+                raise AnalysisError(f"_build_edges[{label}]: edge pair {txt} not recognised")
+        for b_ in bad:
+            check.violated("C17-R4", f"_build_edges[{label}]: neighbour pairs stay within their row/column", b_, mod.line(wa))
         check.decide(dirs == {"horizontal", "vertical"} and not bad, "C17-R4", f"_build_edges[{label}]: both grid directions generate edges between true 4-neighbours", str(sorted(dirs)),
                      mod.line(wa), fail_detail=f"directions covered: {sorted(dirs)}" + (f"; {bad}" if bad else ""))
     idx = [unparse(x) for x in definitions(be, "idx") if isinstance(x, ast.AST)]
